@@ -256,6 +256,24 @@ func ConfigBases() map[string][]Op {
 		{K: VCreate, I: "i", Cfg: cfg("cosine", "float32")},
 		{K: VAdd, I: "i", ID: "b", V: v(0, 2)},
 	}
+	// the same name re-created with another dimension and another precision (the arena files of
+	// the two incarnations differ in slot size / header)
+	b["drop-recreate-redim"] = []Op{{K: VCreate, I: "i", Cfg: cfg("euclidean", "float32")},
+		{K: VAdd, I: "i", ID: "a", V: v(1, 0), M: map[string]any{"s": "x"}},
+		{K: VAdd, I: "i", ID: "b", V: v(0, 1)},
+		{K: VDropIndex, I: "i"},
+		{K: VCreate, I: "i", Cfg: cfg("euclidean", "float16")},
+		{K: VAdd, I: "i", ID: "b", V: []float32{0, 2, 1}},
+		{K: VAdd, I: "i", ID: "c", V: []float32{1, 2, 3}, M: map[string]any{"s": "y"}},
+		{K: VDel, I: "i", ID: "b"},
+	}
+	// key-value keys that look like the legacy edge keys
+	b["kv-legacy-prefix"] = []Op{
+		{K: KVSet, ID: "rel:a:r", S: "v1"},
+		{K: KVSet, ID: "rev:a:r", S: "v2"},
+		{K: KVSet, ID: "relative", S: "v3"},
+		{K: KVDel, ID: "rev:a:r"},
+	}
 	b["kv"] = []Op{
 		{K: KVSet, ID: "k1", S: "v1"},
 		{K: KVSet, ID: "k2", S: ""},
